@@ -207,25 +207,18 @@ func c9mixExhaustive(r *rand.Rand, tier string) []any {
 	two := append(append(c9flagScns(), c9mixScns()...), c9pruneScns()...)
 	three := append(c9mixThree(), c9pruneThree()...)
 	if tier == "thorough" {
-		for bi, b := range c9backends {
-			for _, s := range two {
-				all := conc.Interleavings(c9counts(s.mk(b, nil)))
-				if len(all) > 3000 {
-					if bi != 0 {
-						continue
-					}
-					all = conc.Sample(r, all, 1500)
-				} else if len(all) > 600 && b == "configmap" {
-					continue
-				}
-				for _, sch := range all {
-					out = append(out, s.mk(b, sch))
-				}
+		// every interleaving of a two-operation scenario when there are at most 500, otherwise 500 sampled ones;
+		// one backend per scenario, rotating (the base scenarios of c09.go run on all three)
+		for i, s := range two {
+			b := c9backends[i%len(c9backends)]
+			for _, sch := range conc.Sample(r, conc.Interleavings(c9counts(s.mk(b, nil))), 500) {
+				out = append(out, s.mk(b, sch))
 			}
-			for _, s := range three {
-				for _, sch := range conc.Bounded(c9counts(s.mk(b, nil)), 2) {
-					out = append(out, s.mk(b, sch))
-				}
+		}
+		for i, s := range three {
+			b := c9backends[(i+1)%len(c9backends)]
+			for _, sch := range conc.Sample(r, conc.Bounded(c9counts(s.mk(b, nil)), 2), 500) {
+				out = append(out, s.mk(b, sch))
 			}
 		}
 		return out
